@@ -42,6 +42,11 @@ enum V {
     GenFn(usize),
     Native(usize),
     Iter(Vec<V>),
+    /// harness-only spellings of an iterator over pairs (the model sees `Iter` of tuples):
+    /// `(x0, x1, …).enumerate()` and `(x0, …).zip((y0, …))` — adaptors that hand out their pairs
+    /// as temporary tuples inside the runtime
+    Enumerate(Vec<V>),
+    Zip(Vec<V>, Vec<V>),
     GenInst(usize), // a fresh (not yet started) instance of the zero-argument generator function i
     Host { ty: String, c: bool, i: bool, t: bool },
 }
@@ -216,6 +221,8 @@ fn sx_v(v: &V) -> String {
         V::List(xs) => format!("(l{})", xs.iter().map(|x| format!(" {}", sx_v(x))).collect::<String>()),
         V::Tuple(xs) => format!("(t{})", xs.iter().map(|x| format!(" {}", sx_v(x))).collect::<String>()),
         V::Iter(xs) => format!("(it{})", xs.iter().map(|x| format!(" {}", sx_v(x))).collect::<String>()),
+        V::Enumerate(xs) => sx_v(&V::Iter(xs.iter().enumerate().map(|(i, x)| V::Tuple(vec![V::Int(i as i64), x.clone()])).collect())),
+        V::Zip(xs, ys) => sx_v(&V::Iter(xs.iter().zip(ys.iter()).map(|(x, y)| V::Tuple(vec![x.clone(), y.clone()])).collect())),
         V::Map(es) => format!("(m{}{})", if es.is_empty() { "" } else { " " }, sx_entries(es)),
         V::Obj { ty, call, iter, next, es, base } => {
             let t = match ty {
@@ -372,6 +379,8 @@ fn r_v(v: &V) -> String {
             _ => format!("({})", xs.iter().map(r_v).collect::<Vec<_>>().join(", ")),
         },
         V::Iter(xs) => format!("{}.iter()", r_v(&V::Tuple(xs.clone()))),
+        V::Enumerate(xs) => format!("{}.enumerate()", r_v(&V::Tuple(xs.clone()))),
+        V::Zip(xs, ys) => format!("{}.zip({})", r_v(&V::Tuple(xs.clone())), r_v(&V::Tuple(ys.clone()))),
         V::Map(es) => format!("{{{}}}", r_entries(es).join(", ")),
         V::Obj { ty, call, iter, next, es, base } => {
             // `@meta z` forces a metamap even when no other meta entry is present
@@ -1613,6 +1622,18 @@ fn form_positions() -> Vec<String> {
             }
         }
     }
+    for idx in 0..2 {
+        for f in forms {
+            v.push(format!("multi:map:{}:{}", idx, f));
+        }
+    }
+    // `for` over producers of pairs: every value handed to the hint is a Tuple
+    for prod in ["map", "obj", "enumerate", "zip"] {
+        for f in forms {
+            v.push(format!("for1-pairs:{}:{}", prod, f));
+            v.push(format!("for2-pairs:{}:{}", prod, f));
+        }
+    }
     v.push("multi-short:list:wild".into());
     v.push("let:wildn".into());
     v.push("for1:wildn".into());
@@ -1690,6 +1711,8 @@ fn form_template(pos: &str, h: &Hint, x: &V) -> Prog {
                 "tuple" => E::LetUnpack(targets.clone(), bx(E::Lit(V::Tuple(vals)))),
                 "iter" => E::LetUnpack(targets.clone(), bx(E::Lit(V::Iter(vals)))),
                 "range" => E::LetUnpack(targets.clone(), bx(E::Lit(V::Range(1, 4)))),
+                // the targets receive the entries as (key, value) tuples
+                "map" => E::LetUnpack(targets.clone(), bx(E::Lit(V::Map(vals.iter().enumerate().map(|(i, v)| (i as u32, v.clone())).collect())))),
                 _ => {
                     funs.push(FunDef {
                         params: ps(vec![(0, None), (1, None), (2, None)]),
@@ -1721,6 +1744,27 @@ fn form_template(pos: &str, h: &Hint, x: &V) -> Prog {
         }
         "let" => seq(vec![em(1), E::Let(t.clone(), hs, bx(xv)), em(2)]),
         "for1" => E::For(vec![(t.clone(), hs)], bx(E::Lit(V::List(vec![x.clone(), x.clone()]))), bx(em(1))),
+        "for1-pairs" | "for2-pairs" => {
+            let producer = match parts[1] {
+                "map" => V::Map(vec![(0, x.clone()), (1, V::Int(2))]),
+                "obj" => V::Obj { ty: MetaTy::Str("Foo".into()), call: false, iter: false, next: false, es: vec![(0, x.clone()), (1, V::Int(2))], base: None },
+                "enumerate" => V::Enumerate(vec![x.clone(), V::Int(2)]),
+                _ => V::Zip(vec![x.clone(), V::Int(2)], vec![V::Int(5), V::Int(6)]),
+            };
+            if parts[0] == "for1-pairs" {
+                // one argument: it receives the pair itself
+                let mut body = vec![em(1)];
+                body.extend(emit_types(&[&t]));
+                E::For(vec![(t.clone(), hs)], bx(E::Lit(producer)), bx(seq(body)))
+            } else {
+                // two arguments: the pair is unpacked, the hinted one is the second element
+                // (zip: the first, so that the grid value is the one under the hint)
+                let bs = if parts[1] == "zip" { vec![(t.clone(), hs), (id(1), None)] } else { vec![(id(1), None), (t.clone(), hs)] };
+                let mut body = vec![E::Emit(bx(E::TypeOf(bx(E::Var(1)))))];
+                body.extend(emit_types(&[&t]));
+                E::For(bs, bx(E::Lit(producer)), bx(seq(body)))
+            }
+        }
         "for2-first" => E::For(
             vec![(t.clone(), hs), (id(1), None)],
             bx(E::Lit(V::List(vec![V::Tuple(vec![x.clone(), V::Int(5)])]))),
@@ -2334,7 +2378,36 @@ impl<'a> PGen<'a> {
                 bs.push((t, h));
             }
             (bs, E::Lit(V::List(rows)))
-        } else if r < 60 {
+        } else if r < 58 {
+            // producers of pairs: map entries, enumerate, zip — with one argument (the pair, always
+            // a Tuple) or two (unpacked)
+            let ek = self.kind();
+            let n = self.rng.below(3);
+            let xs: Vec<V> = (0..n).map(|_| self.value(ek, sc)).collect();
+            let (prod, first_kind, second_kind) = match self.rng.below(3) {
+                0 => (V::Map(xs.iter().enumerate().map(|(i, v)| (i as u32, v.clone())).collect()), K::Str, ek),
+                1 => (V::Enumerate(xs), K::Int, ek),
+                _ => {
+                    let ys = (0..n).map(|_| V::Int(self.rng.range(0, 9))).collect();
+                    (V::Zip(xs, ys), ek, K::Int)
+                }
+            };
+            if self.rng.chance(1, 2) {
+                let t = self.target(K::Any, &mut isc, 50);
+                let h = if self.wrong() {
+                    Some(self.hint_for(K::Int))
+                } else {
+                    Some(Hint { name: (*self.rng.pick(&["Tuple", "Indexable", "Iterable", "Any", "Tuple"])).to_string(), opt: self.rng.chance(1, 4) })
+                };
+                (vec![(t, h)], E::Lit(prod))
+            } else {
+                let a = self.target(first_kind, &mut isc, 30);
+                let ha = self.target_hint(first_kind, &a, false);
+                let b = self.target(second_kind, &mut isc, 30);
+                let hb = self.target_hint(second_kind, &b, false);
+                (vec![(a, ha), (b, hb)], E::Lit(prod))
+            }
+        } else if r < 62 {
             let t = self.target(K::Int, &mut isc, 15);
             let h = self.target_hint(K::Int, &t, false);
             (vec![(t, h)], E::Lit(V::Range(0, self.rng.range(0, 3))))
@@ -2942,6 +3015,76 @@ fn map_pattern_grid(cx: &mut Ctx, values: &[(String, V)], names: &[&str]) {
     cx.rep.extra.insert("map_pattern_cases".into(), json!(n));
 }
 
+/// A single wildcard pattern on a `match` with several subjects (`match a, b` / `_: T then`) stands
+/// for all of them: the value under the hint is the tuple of the subjects. Oracle: the model's `check`
+/// on that tuple. Known finding F-C16-6 while the runtime checks its internal TemporaryTuple.
+fn multi_subject_wildcard_grid(cx: &mut Ctx, values: &[(String, V)], names: &[&str]) {
+    let open: Vec<String> = cx.rep.known_open().iter().filter_map(|e| e["id"].as_str().map(|s| s.to_string())).collect();
+    let mut attributed = 0u64;
+    let mut n = 0u64;
+    for (vn, v) in values {
+        for n_sub in [2usize, 3] {
+            let mut subjects = vec![v.clone(), V::Int(5)];
+            if n_sub == 3 {
+                subjects.push(V::Str("s".into()));
+            }
+            let tuple = V::Tuple(subjects.clone());
+            for name in names {
+                for opt in [false, true] {
+                    let h = hint(name, opt);
+                    let passes = cx.drv.ask(&format!("chk {} {}", sx_hint(&h), sx_v(&tuple))) == "1";
+                    for pat in ["_", "_w7"] {
+                        let script = format!(
+                            "r = match {}\n  {}: {} then\n    print(repr(10))\n    7\n  else\n    print(repr(11))\n    8\nr\n",
+                            subjects.iter().map(r_v).collect::<Vec<_>>().join(", "),
+                            pat,
+                            r_hint(&h)
+                        );
+                        let script = format!("f0 = |v0|\n  v0\n{}", script);
+                        let key = format!("multi-subject-wildcard {} {}{} {} {}", n_sub, name, if opt { "?" } else { "" }, pat, vn);
+                        cx.rep.case(&key, true);
+                        cx.rep.bump("kind=multi-subject-wildcard");
+                        n += 1;
+                        let expected = if passes { ("ok i7".to_string(), "i10".to_string()) } else { ("ok i8".to_string(), "i11".to_string()) };
+                        let mut bad = false;
+                        for checks in [true, false] {
+                            let (o, lines, _) = run_koto(&script, checks);
+                            let got = (match &o { Out::Ok(c) => format!("ok {}", c), other => format!("{:?}", other) }, trace_text(&lines));
+                            if got != expected {
+                                bad = true;
+                            }
+                        }
+                        if !bad {
+                            continue;
+                        }
+                        // cause rule of F-C16-6: the only names for which a Tuple and the internal
+                        // TemporaryTuple differ
+                        let f6 = matches!(*name, "Tuple" | "Indexable" | "Iterable" | "TemporaryTuple");
+                        if f6 && open.iter().any(|x| x == "F-C16-6") {
+                            attributed += 1;
+                            continue;
+                        }
+                        cx.d_fail += 1;
+                        if cx.d_fail <= 5 {
+                            cx.rep.violation(
+                                "D",
+                                "C16:multi-subject-wildcard",
+                                json!({"case": key, "script": script, "expected": expected,
+                                       "impl_on": format!("{:?}", run_koto(&script, true).0), "impl_off": format!("{:?}", run_koto(&script, false).0),
+                                       "note": "a hinted wildcard over several match subjects is checked against the tuple of the subjects; the internal TemporaryTuple must not be observable"}),
+                            );
+                        }
+                    }
+                }
+            }
+        }
+    }
+    if attributed > 0 {
+        cx.rep.known("F-C16-6", &format!("{} of {} multi-subject wildcard cases: the hint sees the internal TemporaryTuple", attributed, n));
+    }
+    cx.rep.extra.insert("multi_subject_wildcard_cases".into(), json!(n));
+}
+
 /// `CompileArgs` is a builder: the switches must be independent. The exports of a script compiled
 /// with `export_top_level_ids(true)` are the same whichever side of it `enable_type_checks(b)` is set,
 /// and contain the script's top-level ids.
@@ -3150,6 +3293,7 @@ fn main() {
     }
     cx.flush();
     map_pattern_grid(&mut cx, &form_values, &names);
+    multi_subject_wildcard_grid(&mut cx, &form_values, &names);
     // deeper chains on the two cheapest positions (one assert, one check) with the names that matter
     let chain_names = ["Foo", "Bar", "Baz", "Object", "Map", "Number", "String", "Any", "Indexable", "Callable"];
     for pos in ["let", "match-bind", "catch", "arg"] {
